@@ -19,6 +19,7 @@ package main
 import (
 	"fmt"
 	"os"
+	"strings"
 
 	"verifharness/cx"
 	"verifharness/hx"
@@ -72,7 +73,21 @@ func run(c hx.Config) error {
 		}
 		o.Emit("c02 "+cs.Body+" # "+s.Kind+" "+how+" "+cx.Repro(s, in), impl)
 	}
+	// aim=<kind,…|all> (from vlib: the Go functions whose structure fingerprint changed reach these kinds): 4x the schemas
+	aim := map[string]bool{}
+	for _, a := range c.Args {
+		if strings.HasPrefix(a, "aim=") {
+			for _, k := range strings.Split(a[4:], ",") {
+				aim[k] = true
+			}
+		}
+	}
 	for _, kind := range kinds {
+		perKind := perKind
+		if aim[kind] || aim["all"] {
+			perKind *= 4
+			o.Count("aimed:" + kind)
+		}
 		for i := range perKind {
 			depth := 1 + i%maxDepth
 			s := cx.GenKind(r, depth, kind)
